@@ -94,7 +94,7 @@ theorem celsius_acc (k : Rat) (hk : rne k = k) (h0 : 0 ≤ k) (h1 : k ≤ 100000
 /-! ### `convertField` / `applyUnits` / `mkConfig` -/
 
 theorem convertField_untouched (units : List (String × String)) (f : Field)
-    (h : ∀ pq u, f.fmeta.pq = some pq → assocGet pq units = some u → conversion pq u = none) :
+    (h : ∀ pq u, f.fmeta.pq = some pq → assocGet pq units = some u → conversion pq u f.fmeta.unit = none) :
     convertField units f = some f := by
   unfold convertField
   split
